@@ -49,8 +49,13 @@
 (declare-fun pathRelF (String String) String)
 (declare-fun pathRelE (String String) ErrV)
 (declare-fun pathIsLocal (String) Bool)
+;                 The root and the directory of p are resolved first (a directory inside the root may be a link that leaves
+;                 it); a path that cannot be resolved is compared as it is written.
+(define-fun resolvedOr ((p String)) String (ite (isErr (evalSymlinksE p)) p (evalSymlinksF p)))
+(define-fun visTarget ((p String)) String (pathJoin (resolvedOr (pathDir (pathAbsF p))) (pathBase (pathAbsF p))))
 (define-fun visP ((root String) (p String)) Bool
-  (and (not (isErr (pathAbsE p))) (not (isErr (pathRelE root (pathAbsF p)))) (pathIsLocal (pathRelF root (pathAbsF p)))))
+  (and (not (isErr (pathAbsE p))) (not (isErr (pathRelE (resolvedOr root) (visTarget p))))
+       (pathIsLocal (pathRelF (resolvedOr root) (visTarget p)))))
 (define-fun-rec visL ((root String) (l SLst)) SLst
   (ite ((_ is SNil) l) SNil (ite (visP root (shd l)) (SCons (shd l) (visL root (stl l))) (visL root (stl l)))))
 (define-fun-rec allVis ((root String) (l SLst)) Bool
